@@ -1474,12 +1474,16 @@ class TestFactory:
     # Reference-carrying collection literals
     # ------------------------------------------------------------------
 
-    def _reference_pool(self, test_case: tc.TestCase, position: int) -> list[cst.BaseExpression]:
+    def _reference_pool(
+        self, test_case: tc.TestCase, position: int, container: type | None = None
+    ) -> list[cst.BaseExpression]:
         """Return ``cst.Name`` references to variables bound before *position*.
 
         Args:
             test_case: The test case to scan.
             position: Only variables bound strictly before this index are pooled.
+            container: The type of the collection the references are elements of; the
+                elements of a set have to be hashable.
 
         Returns:
             A list of ``cst.Name`` nodes referencing in-scope variables.
@@ -1487,7 +1491,13 @@ class TestFactory:
         return [
             cst.Name(statement.bound_variable)
             for idx, statement in enumerate(test_case.statements())
-            if idx < position and statement.bound_variable is not None
+            if idx < position
+            and statement.bound_variable is not None
+            and (
+                container is not set
+                or getattr(statement.bound_type, "__hash__", None) is not None
+                and statement.bound_type is not None
+            )
         ]
 
     def _collection_element(
@@ -1496,6 +1506,7 @@ class TestFactory:
         elem_type: ProperType | None,
         cursor: int,
         depth: int,
+        container: type | None = None,
     ) -> tuple[cst.BaseExpression, int]:
         """Build one collection element, creating a dependency variable if typed.
 
@@ -1511,6 +1522,7 @@ class TestFactory:
             elem_type: The element ProperType, or ``None`` if unknown.
             cursor: Current insertion cursor.
             depth: Current recursion depth.
+            container: The type of the collection the element goes into.
 
         Returns:
             A tuple of (element expression, updated cursor).
@@ -1528,7 +1540,7 @@ class TestFactory:
             if raw_elem is not None and raw_elem in literalgen.LITERAL_TYPES:
                 var, cursor = self._emit_primitive_statement(test_case, raw_elem, cursor)
                 return cst.Name(var), cursor
-        pool = self._reference_pool(test_case, cursor)
+        pool = self._reference_pool(test_case, cursor, container)
         return literalgen._element_value(self._constant_provider, pool), cursor  # noqa: SLF001
 
     def _collection_element_types(
@@ -1589,7 +1601,7 @@ class TestFactory:
         cursor = position
         if depth >= config.configuration.test_creation.max_recursion:
             # Too deep for element construction: emit a pooled/literal collection.
-            pool = self._reference_pool(test_case, cursor)
+            pool = self._reference_pool(test_case, cursor, raw)
             expr = literalgen.generate_literal(raw, self._constant_provider, pool)
             return self._insert_collection(test_case, expr, raw, cursor)
 
@@ -1600,7 +1612,7 @@ class TestFactory:
         elem_types, _fixed = self._collection_element_types(raw, param_type)
         element_nodes: list[cst.BaseExpression] = []
         for elem_type in elem_types:
-            value, cursor = self._collection_element(test_case, elem_type, cursor, depth + 1)
+            value, cursor = self._collection_element(test_case, elem_type, cursor, depth + 1, raw)
             element_nodes.append(value)
 
         if raw is list:
@@ -1719,7 +1731,9 @@ class TestFactory:
         # Reference-carrying collections may mutate towards/away from variable
         # references bound strictly before this statement.
         pool: list[cst.BaseExpression] = (
-            self._reference_pool(test_case, position) if stmt.bound_type in _COLLECTION_RAWS else []
+            self._reference_pool(test_case, position, stmt.bound_type)
+            if stmt.bound_type in _COLLECTION_RAWS
+            else []
         )
         new_expr = literalgen.mutate_literal(
             old_expr, stmt.bound_type, self._constant_provider, pool
@@ -1831,11 +1845,15 @@ class TestFactory:
                 # Collections may reference in-scope variables inline (no new
                 # dependency statements are inserted here).
                 inline_pool: list[cst.BaseExpression] = (
-                    self._reference_pool(test_case, position) if raw in _COLLECTION_RAWS else []
+                    self._reference_pool(test_case, position, raw)
+                    if raw in _COLLECTION_RAWS
+                    else []
                 )
                 value = literalgen.generate_literal(raw, self._constant_provider, inline_pool)
             else:
-                value = self._fallback_literal_value(raw, self._reference_pool(test_case, position))
+                value = self._fallback_literal_value(
+                    raw, self._reference_pool(test_case, position, raw)
+                )
 
             args.append(self._as_arg(name, value, positional_only=is_positional_only))
 
